@@ -448,6 +448,18 @@ func c15Decode(typ string, data []byte) (error, func(q *c15Q)) {
 			q.do("IsFull", func() { c15Sink = p.IsFull() })
 			if !big {
 				q.do("Validate", func() { c15Sink = p.Validate() })
+				// the loops of the decoded polygon are values a caller can reach (Polygon.Loops / Loop(i)): each must be
+				// queryable on its own (a loop left half-initialised by a decoder that went on after a failure shows here)
+				nq := nl
+				if nq > 64 {
+					nq = 64
+				}
+				for i := 0; i < nq; i++ {
+					l := p.Loop(i)
+					q.do("Loop.ContainsPoint", func() { c15Sink = l.ContainsPoint(s2.PointFromCoords(1, 0.25, 0.125)) })
+					q.do("Loop.ContainsCell", func() { c15Sink = l.ContainsCell(s2.CellFromCellID(s2.CellIDFromFace(0).ChildBeginAtLevel(3))) })
+					q.do("Loop.RectBound", func() { c15Sink = l.RectBound() })
+				}
 			}
 		}
 	}
